@@ -7,6 +7,8 @@ import (
 
 	"verif/internal/drive"
 	"verif/internal/fakeredis"
+
+	"github.com/mgtv-tech/redis-GunYu/config"
 )
 
 // StateSig is the canonical content of the bookkeeping namespace (all databases) plus the
@@ -103,7 +105,7 @@ func (l *RunLog) Cuts() []Cut {
 			if s := StateSig(m, nBiz); s != last {
 				last = s
 				fd, fc := l.floorsAt(n)
-				cuts = append(cuts, Cut{N: n, FloorDone: fd, FloorCut: fc})
+				cuts = append(cuts, Cut{N: n, FloorDone: fd, FloorCut: fc, Mode: l.modeAt(n), Switched: l.switchedAt(n, l.baseMode())})
 			}
 		}
 		c := &cuts[len(cuts)-1]
@@ -146,6 +148,37 @@ func (l *RunLog) floorsAt(n int64) (done, cut int64) {
 		cut = l.FloorCut
 	}
 	return
+}
+
+// modeAt: the mode of the instance whose requests request n belongs to.
+func (l *RunLog) modeAt(n int64) config.ReplayMode {
+	m := l.ModeAtCut
+	for i := range l.Starts {
+		if l.Starts[i].ReqFrom <= n || l.Starts[i].Initial {
+			m = l.Starts[i].Mode
+		}
+	}
+	return m
+}
+
+// baseMode: the mode of the lineage's base run.
+func (l *RunLog) baseMode() config.ReplayMode {
+	if l.Depth == 0 && len(l.Starts) > 0 {
+		return l.Starts[0].Mode
+	}
+	return l.BaseMode
+}
+
+// switchedAt: has any start of the lineage whose requests begin at or before n used another mode
+// than the base run?
+func (l *RunLog) switchedAt(n int64, base config.ReplayMode) bool {
+	sw := l.Switched
+	for i := range l.Starts {
+		if l.Starts[i].ReqFrom <= n && l.Starts[i].Mode != base {
+			sw = true
+		}
+	}
+	return sw
 }
 
 // classifier tells where a request prefix falls.
